@@ -232,5 +232,19 @@ theorem Run.no_crash {marks : List Nat} (hdag : createDag P cfg = .ok (g, marks)
   | nil => exact hc
   | cons _ _ _ _ hf _ ih => exact ih (protocol_no_crash hdag hn _ hf hc)
 
+theorem updateStates_fail (t : Nat) : ∀ (vs : List Nat) (w : World), (∃ v ∈ vs, stateOf P w v = none) →
+    (updateStates P g w t vs).2 = false
+  | [], _, h => by obtain ⟨v, hv, _⟩ := h; cases hv
+  | v :: vs, w, h => by
+    unfold updateStates
+    split
+    · rfl
+    · rename_i hs
+      apply updateStates_fail t vs
+      obtain ⟨u, hu, hn⟩ := h
+      rcases List.mem_cons.1 hu with rfl | hu
+      · rw [hn] at hs; cases hs
+      · exact ⟨u, hu, hn⟩
+
 end Engine
 end Pytask
